@@ -45,6 +45,9 @@ var c18Programs = []string{
 	"((x)); ( (a) )\n", "(( x )) && ( a | (b) )\n", "if ((x)); then ( (a) ); fi\n", "((1)); ( b; (a) )\n", "((1))\n( (a) )\n", "while ((x)); do ( (a) ); done\n", "f() { ((x)); ( (a) ); }\n",
 	// for without a word list, with a here-document pending from the pipeline
 	"cat <<E | for x do a; done\nb\nE\n", "cat <<E | for x\ndo a; done\nb\nE\n", "cat <<E | for x; do\nb\nE\n a\ndone\n",
+	// here-documents pending on two levels at one newline (one in front of a compound command, one inside its condition)
+	"cat <<A | while cat <<B | {\n1\nA\n2\nB\n x\n}; do\n y\ndone\n", "a <<A | if b <<B; then\n1\nA\n2\nB\n c\nfi\n", "a <<A | until b <<B | (\n1\nA\n2\nB\n c\n); do\n d\ndone\n",
+	"a <<A | while b <<B; do\n1\nA\n2\nB\n c <<C\n3\nC\ndone\n", "a <<A && { b <<B | if c <<C; then\n1\nA\n2\nB\n3\nC\n d\nfi\n}\n",
 	// if/elif chains whose conditions all end in ';'
 	"if a; then\n b\nelif c; then\n d\nelif e; then\n f\nfi\n", "if a; b; then\n c\nelif d; then\n e\nfi\n",
 }
